@@ -4,6 +4,8 @@ Tie: the exact ordered list of matches *with trees* of Rule.lparse on the real c
 Adjudication: every tree listed by the real code is checked by an independent derivation checker
 (oracle.check_tree: root name, leaf tiling of source[start:end] incl. offsets/lengths/case, node value =
 concatenation of children, children are a legal expansion of the rule's definition).
+Verified tie: every tree the real code lists on the sampled requests also goes through `checkTree` (Abnf/DerivCheck.lean) in the
+compiled driver - a Lean function PROVED sound w.r.t. the derivation relation (`C03.checked_tree_is_faithful_derivation`).
 """
 from __future__ import annotations
 
@@ -14,6 +16,60 @@ import lib
 import oracle
 
 MODE = "full"
+
+
+def tree_wire(P, n):
+    """prefix form of a tree of the real code for the driver command `chktree` (Abnf/DerivCheck.lean)"""
+    if isinstance(n, P.LiteralNode):
+        v = n.value
+        return f"L {n.offset} {n.length} {len(v)}" + "".join(f" {ord(c)}" for c in v)
+    return f"N {n.name} {len(n.children)}" + "".join(" " + tree_wire(P, c) for c in n.children)
+
+
+def listed_trees(P, rule, s, i):
+    """[(end, tree)] of every match offered by lparse, then the tree of parse - as the real code returns them"""
+    out = []
+    try:
+        for m in rule.lparse(s, i):
+            if len(m.nodes) == 1:
+                out.append((m.start, m.nodes[0]))
+    except (P.ParseError, P.GrammarError, RecursionError):
+        pass
+    try:
+        node, end = rule.parse(s, i)
+        out.append((end, node))
+    except (P.ParseError, P.GrammarError, RecursionError):
+        pass
+    return out
+
+
+def verified_pass(ctx, P, jobs):
+    """jobs: [(grammar, [(s, i, [(end, tree)])])] - every tree goes through the VERIFIED derivation checker `checkTree` in the
+    compiled driver (theorem C03.checked_tree_is_faithful_derivation).  Returns (number of trees checked, rejected records)."""
+    blocks, index = [], []
+    for gr, cases in jobs:
+        lines = list(G.grammar_wire(gr))
+        idx = []
+        for s, i, trees in cases:
+            c = lib.cps(s)
+            for end, node in trees:
+                w = tree_wire(P, node)
+                if any(ch.isspace() for ch in getattr(node, "name", "")):
+                    continue
+                lines.append(f"chktree 0 {i} {end} {len(s)}" + ((" " + c) if c else "") + " " + w)
+                idx.append((s, i, end, node))
+        if idx:
+            blocks.append(lines)
+            index.append((gr, idx))
+    outs = lib.run_driver_parallel(blocks) if blocks else []
+    n = 0
+    bad = []
+    for (gr, idx), out in zip(index, outs):
+        for (s, i, end, node), verdict in zip(idx, out[1:]):
+            n += 1
+            if verdict != "deriv-ok":
+                bad.append((gr, s, i, end, node, verdict))
+    return n, bad
 
 
 def tree_failures(P, grammar, s, i, rules=None, decoy=None):
@@ -111,8 +167,14 @@ def run(ctx):
                                 "offset": i, "tree_failures": bad[:5], "implementation": "", "model": "", "query": "lparse"},
                                key="engine:" + lib.digest([gr, [ord(c) for c in s], i]))
     gcases = ec.gen_cases(ctx.seed + 7777, ctx.budget(60, 600), 8)
+    vjobs = []
+    for gr, sources in CASE_CORPUS:
+        cls_w, rules_w = G.build(P, gr)
+        vjobs.append((gr, [(s, i, listed_trees(P, rules_w[0], s, i)) for s in sources for i in range(len(s) + 1)]))
     for gr, cases in gcases:
         cls_w, rules_w = G.build(P, gr)   # one build per grammar: caches stay warm across sources/offsets
+        vcases = []
+        vjobs.append((gr, vcases))
         cases = cases[:20] + [(s[1:], max(0, i - 1)) for s, i in cases[:6] if len(s) > 1] + [("zz" + s, i + 2) for s, i in cases[:6]]
         cases += [(v, 0) for s, _ in cases[:8] for v in partner_variants(s)[:3]]
         for s, i in cases:
@@ -120,6 +182,7 @@ def run(ctx):
             if bad is None:
                 break     # slow grammar (work bound: C12 / F14): skip the rest of its cases
             checked += 1
+            vcases.append((s, i, listed_trees(P, rules_w[0], s, i)))
             if bad and rep < 3:
                 found = True
                 rep += 1
@@ -127,8 +190,22 @@ def run(ctx):
                            {"kind": "engine", "mode": MODE, "grammar": gr, "source": [ord(c) for c in s], "source_repr": repr(s),
                             "offset": i, "tree_failures": bad[:5], "implementation": "", "model": "", "query": "lparse"},
                            key="engine:" + lib.digest([gr, [ord(c) for c in s], i]))
+    # the same trees through the VERIFIED checker (Lean: checkTree, sound by theorem); a rejection is adjudicated by the
+    # independent Python oracle: both reject -> the tree is not a faithful derivation (failing input); only the verified
+    # checker rejects -> the tie between checker and code's trees is broken (reported without a failing input)
+    n_verified, rejected = verified_pass(ctx, P, vjobs)
+    for gr, s, i, end, node, verdict in rejected[:3]:
+        why = oracle.check_tree(P, gr, 0, s, i, node, end)
+        found = found or bool(why)
+        ctx.report("tree rejected by the verified derivation checker: source=%r offset=%d end=%d (%s; independent oracle: %s)"
+                   % (s, i, end, verdict, why or "accepts"),
+                   {"kind": "engine", "mode": MODE, "grammar": gr, "source": [ord(c) for c in s], "source_repr": repr(s),
+                    "offset": i, "tree_failures": [why or verdict], "implementation": lib.tree_dump(P, node), "model": "", "query": "lparse",
+                    "broken": "checkTree (Abnf/DerivCheck.lean) rejects a tree listed by the real code"},
+                   key="engine:" + lib.digest([gr, [ord(c) for c in s], i]), no_input=not why)
     st = info["stats"]
     ctx.coverage.update({
+        "trees_checked_by_verified_checker": n_verified, "trees_rejected_by_verified_checker": len(rejected),
         "evaluations": st["cases"] + checked,
         "distinct_nontrivial": st["distinct_nontrivial"],
         "rule": "generated grammars x derived/mutated/random strings x every offset; exact ordered match list with trees compared with "
@@ -138,7 +215,7 @@ def run(ctx):
         "trees_checked_by_oracle_cases": checked,
         "disagreements_model_vs_impl": len(dis),
     })
-    cc.conclude(ctx, len(dis), found)
+    cc.conclude(ctx, len(dis), found or bool(rejected))
 
 
 def replay(rp):
